@@ -368,6 +368,7 @@ func (g *generator) next() Op {
 				op := Op{Op: "BuilderNew", Api: "Builder.New", Ids: ids, Rel: -1, Tgt: -1}
 				if g.pct(50) {
 					op.Vals = g.vals(ids)
+					op.WithV = true
 				}
 				if rel >= 0 {
 					op.HasRel, op.Rel = true, rel
@@ -397,6 +398,7 @@ func (g *generator) next() Op {
 			op := Op{Op: "NewBatch", Api: "Builder.NewBatch", Ids: ids, N: 1 + g.rng.Intn(g.p.MaxBatch), Tgt: -1}
 			if g.pct(50) {
 				op.Vals = g.vals(ids)
+				op.WithV = true
 			}
 			if rel >= 0 {
 				op.HasRel, op.Rel = true, rel
